@@ -1,7 +1,15 @@
 ---------------------------- MODULE MC_SqwBuilder ----------------------------
 EXTENDS SqwBuilder, TLC
 MC_Shapes == {<<1, 1, 1, 1>>, <<2, 3, 1, 2>>, <<2, 1, 1, 2>>}
-MC_Shapes_quick == {<<1, 1, 1, 1>>, <<2, 3, 1, 2>>}
+MC_Shapes_quick == {<<2, 3, 1, 2>>}
+MC_Shapes_reuse == {<<1, 1, 1, 1>>}
+MC_BO_both == {"little", "big"}
+MC_BO_big == {"big"}
+MC_BO_little == {"little"}
+(* lengths of an earlier file at the target: none, shorter than any header + table, longer than   *)
+(* any file of the model                                                                           *)
+MC_Prev_none == {0}
+MC_Prev_some == {0, 50, 100000}
 (* arbitrary, pairwise different sizes for the regular blocks *)
 MC_RegSize == [n \in AllNames |->
     CASE n = MainHeader -> 237 [] n = DetPar -> 369 [] n = DndMeta -> 1301 [] n = Instruments -> 613
@@ -12,5 +20,6 @@ SizeOfKind(k) == LET I == {i \in 1..Len(bat) : bat[i].kind = k}
                  IN IF I = {} THEN -1 ELSE bat[CHOOSE i \in I : TRUE].size
 EmitBehaviour == phase = "done" =>
     PrintT(<<"BEH", order, npix, shape, chunk, bo, Len(bat), SizeOfKind("pix"), SizeOfKind("dnd"),
-             Cardinality({i \in 1..Len(writes) : writes[i][1] = "pixchunk" /\ writes[i][3] > 0})>>)
+             Cardinality({i \in 1..Len(writes) : writes[i][1] = "pixchunk" /\ writes[i][3] > 0}),
+             prev, gen>>)
 =============================================================================
